@@ -119,6 +119,19 @@ pub fn payload_len(p: &PayloadContent, e: Endianness) -> usize {
 /// Message::as_bytes for the drivers' own generating steps: a panic of the writer on a generated message must not take the driver down
 /// (it is data for the properties about the writer, and no input at all for the others).  A serialised message is never empty, so an
 /// empty result is the failure mark: writer-related modes record it (their relation then fails), the other modes skip the sample.
+/// a minimal message without storage header and without optional fields (HTYP 0x20 / 0x21): 4..14 bytes plus a short payload
+pub fn boundary_small(r: &mut Rng) -> Message {
+    let with_ext = r.coin();
+    let nd = r.below(6) as usize;
+    let data = r.bytes(nd);
+    Message {
+        storage_header: None,
+        header: StandardHeader { version: 1, endianness: if r.coin() { Endianness::Big } else { Endianness::Little }, has_extended_header: with_ext, message_counter: r.next() as u8,
+                                 ecu_id: None, session_id: None, timestamp: None, payload_length: (4 + data.len()) as u16 },
+        extended_header: if with_ext { Some(ExtendedHeader { verbose: false, argument_count: 0, message_type: MessageType::Log(LogLevel::Info), application_id: "A".into(), context_id: "C".into() }) } else { None },
+        payload: PayloadContent::NonVerbose(r.next() as u32, data),
+    }
+}
 pub fn ser(m: &Message) -> Vec<u8> {
     let m2 = m.clone();
     std::panic::catch_unwind(move || m2.as_bytes()).unwrap_or_default()
